@@ -604,7 +604,7 @@ PROPS["C15"]["rule"] += ("; junk names (incl. readable non-IANA files of the zon
 PROPS["C18"]["rule"] += ("; rounded since = minus the difference rounded with the mirrored mode; Calendar::month_day_from_partial for all 12 x 31 days x five years (leap, common, 1900, -4, 1972) "
                          "x both overflow modes (a record without a year is not judged)")
 PROPS["C19"]["rule"] += ("; ZonedDateTime receivers also within 1.5 days of the transitions of every zone of the database, and on every day whose midnight is skipped by a gap that starts before it "
-                         "(directed list from the exported tables; the oracle stays the core method)")
+                         "(directed list from the exported tables; the oracle stays the core method), and within two days of either end of the instant range")
 for _p, _t in {
     "C02": " Conversions of boundary dates into date-times and zones, sub-second instants at the limits through named zones and time parts whose day count needs more than 32 bits are part of the workload.",
     "C03": " The storm includes zones that skip or repeat a whole day (table and real ones) with day-sized durations and differences. A shard that dies or stops making progress is triaged: a death or non-termination reproduced twice in isolation is a violation with the replay command.",
